@@ -131,6 +131,37 @@ func routeOpts(prefix string, r, n int) []fox.RouteOption {
 	return out
 }
 
+// routePattern / routePath: the routes of a case take different shapes (parameter, infix catch-all kept in one tree node,
+// static, ending catch-all, infix catch-all with a sibling below it): the chain a route is served with must not depend on
+// how the tree stores it.
+func routePattern(i int) string {
+	switch i % 5 {
+	case 1:
+		return fmt.Sprintf("/r%d/*{c}/tail", i)
+	case 2:
+		return fmt.Sprintf("/r%d/static", i)
+	case 3:
+		return fmt.Sprintf("/r%d/*{c}", i)
+	case 4:
+		return fmt.Sprintf("/r%d/{p}/*{c}/end/{q}", i)
+	}
+	return fmt.Sprintf("/r%d/{p}", i)
+}
+
+func routePath(i int) string {
+	switch i % 5 {
+	case 1:
+		return fmt.Sprintf("/r%d/a/b/tail", i)
+	case 2:
+		return fmt.Sprintf("/r%d/static", i)
+	case 3:
+		return fmt.Sprintf("/r%d/a/b", i)
+	case 4:
+		return fmt.Sprintf("/r%d/x/a/b/end/y", i)
+	}
+	return fmt.Sprintf("/r%d/x", i)
+}
+
 func build(c *Case) (*fox.Router, error) {
 	var opts []fox.GlobalOption
 	for i, g := range c.Globals {
@@ -180,7 +211,7 @@ func checkCase(c *Case) (err error) {
 	desc := fmt.Sprintf("globals=%+v defaultOptionsAt=%d: ", c.Globals, c.DefaultAt)
 	// routes: /r<i> (plain), plus one redirecting route
 	for i, rc := range c.Routes {
-		if _, err := f.Handle("GET", fmt.Sprintf("/r%d/{p}", i), endpoint(fmt.Sprintf("r%d", i), 200), routeOpts("m", i, rc.N)...); err != nil {
+		if _, err := f.Handle("GET", routePattern(i), endpoint(fmt.Sprintf("r%d", i), 200), routeOpts("m", i, rc.N)...); err != nil {
 			return fmt.Errorf("%sregistering route %d: %v", desc, i, err)
 		}
 	}
@@ -197,7 +228,7 @@ func checkCase(c *Case) (err error) {
 	}
 	for i, rc := range c.Routes {
 		if rc.Updated >= 0 {
-			if _, err := f.Update("GET", fmt.Sprintf("/r%d/{p}", i), endpoint(fmt.Sprintf("r%d'", i), 200), routeOpts("u", i, rc.Updated)...); err != nil {
+			if _, err := f.Update("GET", routePattern(i), endpoint(fmt.Sprintf("r%d'", i), 200), routeOpts("u", i, rc.Updated)...); err != nil {
 				return fmt.Errorf("%supdating route %d: %v", desc, i, err)
 			}
 		}
@@ -209,11 +240,11 @@ func checkCase(c *Case) (err error) {
 			rids, hid = ids("u", i, rc.Updated), fmt.Sprintf("H:r%d'", i)
 		}
 		want := append(append(c.globalsFor(fox.RouteHandler), rids...), hid)
-		if err := expectTrace(serve(f, "GET", fmt.Sprintf("/r%d/x", i)), want); err != nil {
+		if err := expectTrace(serve(f, "GET", routePath(i)), want); err != nil {
 			return fmt.Errorf("%sroute %d (%+v) served through ServeHTTP: %w", desc, i, rc, err)
 		}
 		// Route.Handle: bare handler; Route.HandleMiddleware: only the route-specific chain
-		req, tr := request("GET", fmt.Sprintf("/r%d/x", i))
+		req, tr := request("GET", routePath(i))
 		rte, cc, _ := f.Lookup(fox.NewTestContextOnly(httptest.NewRecorder(), req).Writer(), req)
 		if rte == nil {
 			return fmt.Errorf("%sroute %d not found by Lookup", desc, i)
